@@ -29,7 +29,8 @@ def generate(rng, tier):
             if tag(nd) == 'fn' and any(tag(a) == 'af' and a[1] == 'address' for a in nd[3][1:]) and rng.random() < 0.5:
                 pass
     from .. import o4exec
-    return out + clash_worlds(rng, n // 3, o) + same_name_worlds(rng, max(6, n // 25)) + o4exec.exec_worlds(rng, 10 if tier == 'quick' else 200, **dict(p_base=0.8, p_impl=0.6, p_vftable=0.5, max_items=6))
+    from . import rare
+    return out + rare.base_cases() + clash_worlds(rng, n // 3, o) + same_name_worlds(rng, max(6, n // 25)) + o4exec.exec_worlds(rng, 10 if tier == 'quick' else 200, **dict(p_base=0.8, p_impl=0.6, p_vftable=0.5, max_items=6))
 
 def clash_worlds(rng, n, o):
     out = []
@@ -89,6 +90,7 @@ def judge(c, impl, model):
     cid = c[1]
     info = {'dist': []}
     fs = k_compare(ID, c, impl, model)
+    fs += must_reject_findings(ID, c, impl)
     cls = outcome_class(impl.get('o3'))
     count(info, 'impl-' + cls)
     if cls != 'ok':
